@@ -464,6 +464,71 @@ let gridgen_query (toks : string list) (rhs : string) : string =
   | "PROP" :: _ -> "ok"
   | _ -> "?unknown-query"
 
+(* ---------------- C11 parallel regions ---------------- *)
+let par_dims = ref { d_nr = z0; d_nt = z0; d_nsc = z0 }
+let arr_of = function "x" -> AX | "rhs" -> ARhs | "temp" -> ATemp | "res" -> ARes | s -> failwith ("array " ^ s)
+let arr_name = function AX -> "x" | ARhs -> "rhs" | ATemp -> "temp" | ARes -> "res" | ASolverC -> "circle-solver" | ASolverR -> "radial-solver" | AScratch -> "scratch"
+let task_of op task idx colour =
+  let i = zs idx in
+  let white = (colour = "white") in
+  match op, task with
+  | "residualGive", "circle" -> ResGiveCircle i
+  | "residualGive", "radial" -> ResGiveRadial i
+  | "residualTake", "circle" -> ResTakeCircle i
+  | "residualTake", "radial" -> ResTakeRadial i
+  | ("smootherGive" | "extSmootherGive"), "ascCircle" -> AscCircle (true, i, white)
+  | ("smootherGive" | "extSmootherGive"), "ascRadial" -> AscRadial (true, i, white)
+  | ("smootherTake" | "extSmootherTake"), "ascCircle" -> AscCircle (false, i, white)
+  | ("smootherTake" | "extSmootherTake"), "ascRadial" -> AscRadial (false, i, white)
+  | _, "solveCircle" -> SolveCircle (true, i)
+  | _, "solveRadial" -> SolveRadial (true, i)
+  | _ -> failwith "task"
+let rec task_str = function
+  | ResGiveCircle i -> "ResidualGive::applyCircleSection(" ^ zi i ^ ")"
+  | ResGiveRadial i -> "ResidualGive::applyRadialSection(" ^ zi i ^ ")"
+  | ResTakeCircle i -> "ResidualTake::applyCircleSection(" ^ zi i ^ ")"
+  | ResTakeRadial i -> "ResidualTake::applyRadialSection(" ^ zi i ^ ")"
+  | AscCircle (g, i, w) -> Printf.sprintf "%s::applyAscOrthoCircleSection(%s,%s)" (if g then "give" else "take") (zi i) (if w then "White" else "Black")
+  | AscRadial (g, i, w) -> Printf.sprintf "%s::applyAscOrthoRadialSection(%s,%s)" (if g then "give" else "take") (zi i) (if w then "White" else "Black")
+  | SolveCircle (p, i) -> Printf.sprintf "solveCircleSection(%s)%s" (zi i) (if p then "" else "[shared scratch]")
+  | SolveRadial (p, i) -> Printf.sprintf "solveRadialSection(%s)%s" (zi i) (if p then "" else "[shared scratch]")
+
+let par_regions = [ ("residual_give", gen_residual_give); ("residual_take", gen_residual_take); ("smoother_give", gen_smoother_give);
+                    ("smoother_take", gen_smoother_take); ("ext_smoother_give", gen_ext_smoother_give); ("ext_smoother_take", gen_ext_smoother_take) ]
+
+let par_query (toks : string list) (_rhs : string) : string =
+  match toks with
+  | ["DIMS"; nr; nt; nsc; _; _] -> par_dims := { d_nr = zs nr; d_nt = zs nt; d_nsc = zs nsc }; "ok"
+  | "FP" :: op :: task :: idx :: colour :: "|" :: rest ->
+    let t = task_of op task idx colour in
+    let bad = ref [] in
+    let rec go kind = function
+      | [] -> ()
+      | "|" :: r -> go kind r
+      | ("W" | "R" as k) :: cellspec :: r ->
+        (match String.split_on_char ':' cellspec with
+         | [a; ij] ->
+           (match String.split_on_char ',' ij with
+            | [i; j] ->
+              let c = ((arr_of a, zs i), zs j) in
+              let ok = if k = "W" then observed_write_ok !par_dims t c else observed_read_ok !par_dims t c in
+              if not ok && List.length !bad < 4 then bad := (k ^ " " ^ cellspec) :: !bad
+            | _ -> failwith "cell")
+         | _ -> failwith "cell");
+        go kind r
+      | _ -> failwith "footprint line" in
+    go "W" rest;
+    if !bad = [] then "CHECK ok" else "CHECK FAIL the task touches elements outside the model footprint: " ^ String.concat " " (List.rev !bad)
+  | ["RACE"; region; nr; nt; nsc] ->
+    (match List.assoc_opt region par_regions with
+     | None -> "?unknown-region"
+     | Some r ->
+       (match find_race r { d_nr = zs nr; d_nt = zs nt; d_nsc = zs nsc } with
+        | None -> "none"
+        | Some ((t1, t2), ((a, i), j)) -> Printf.sprintf "race %s || %s @ %s[%s,%s]" (task_str t1) (task_str t2) (arr_name a) (zi i) (zi j)))
+  | "PROP" :: _ -> "ok"
+  | _ -> "?unknown-query"
+
 let () =
   let mode = if Array.length Sys.argv > 1 then Sys.argv.(1) else "" in
   let handler = match mode with
@@ -474,6 +539,7 @@ let () =
     | "smoother" -> smoother_query
     | "cycle" -> cycle_query
     | "gridgen" -> gridgen_query
+    | "par" -> par_query
     | _ -> prerr_endline ("unknown mode " ^ mode); exit 2 in
   try
     while true do
